@@ -261,10 +261,15 @@ func checkC04(c *ForeignCase) *Outcome {
 
 var c04Fixtures = []string{"flat24", "nest", "tiny", "rep3"}
 
-func TestC04(t *testing.T) {
+func TestC04(t *testing.T) { rapid.Check(t, propC04) }
+
+// FuzzC04: the same property driven by Go's coverage-guided fuzzer (thorough tier).
+func FuzzC04(f *testing.F) { f.Fuzz(rapid.MakeFuzz(propC04)) }
+
+func propC04(t *rapid.T) {
 	cfg := foreignCfg{fixtures: fixturesFromEnv(c04Fixtures), maxRecs: envInt("VERIF_MAXRECS", 120), gen: vt.DefaultGen}
 	cfg.gen.LongList = 700
-	rapid.Check(t, func(t *rapid.T) {
+	{
 		c := &ForeignCase{Fixture: rapid.SampledFrom(cfg.fixtures).Draw(t, "fixture")}
 		f := fx.Get(c.Fixture)
 		c.Batches = genBatches(t, f, cfg)
@@ -273,7 +278,7 @@ func TestC04(t *testing.T) {
 		l, nt := foreignLabels(f.Root, c)
 		record("C04", hashOf(c), nt, l, c.sample)
 		verdict(t, "C04", c, o)
-	})
+	}
 }
 
 func TestReplayC04(t *testing.T) {
